@@ -37,6 +37,8 @@ type Scenario struct {
 	// HexEdits corrupt the hex text itself (odd length, characters that are
 	// not hex digits) on its way to the hex decoders.
 	HexEdits []simio.Edit `json:"hex_edits,omitempty"`
+	// RCap: "byte" = the simulated reader also offers io.ByteReader.
+	RCap string `json:"rcap,omitempty"`
 }
 
 // Dangerous reports whether a broken limit check could let this scenario
@@ -119,6 +121,9 @@ func (prop) Decode(raw []byte) (any, error) {
 			return nil, fmt.Errorf("bad edit")
 		}
 	}
+	if s.RCap != "" && s.RCap != "byte" {
+		return nil, fmt.Errorf("bad reader capabilities")
+	}
 	for _, e := range s.HexEdits {
 		if (e.K != "truncate" && e.K != "set") || e.Off < 0 || e.V > 255 {
 			return nil, fmt.Errorf("bad hex edit")
@@ -182,6 +187,7 @@ func (prop) Generate(r *prng.Rand, phase string) any {
 	}
 	s.Read = c03.GenReadPlan(r, len(ref)+1)
 	s.Read.ErrAt, s.Read.TruncAt = -1, -1
+	s.RCap = []string{"", "", "byte"}[r.Intn(3)]
 	// a second stored encoding to splice from
 	other, _, oerr := refwkb.Encode(s.Codec, withoutEmptyPoints(cfg.GenAny(r), s.Codec))
 	ranges := refwkb.SubRanges(fields, len(ref))
@@ -573,7 +579,7 @@ func (prop) Execute(scAny any, phase string, log *core.Log) core.Result {
 	// 2. Read through a read plan
 	rd := simio.NewReader(data, s.Read)
 	rd.MaxCalls = len(data) + 64 + 8*len(s.Read.Dirs)
-	if p := core.Guard(func() { g, derr = lib.Read(rd) }); p != "" {
+	if p := core.Guard(func() { g, derr = lib.Read(rd.With(s.RCap)) }); p != "" {
 		res.Fail("panic", "panic:read:"+core.PanicSite(p), "Read panicked on %s: %s", short(data), p)
 		return res
 	}
